@@ -15,6 +15,7 @@ import json
 import os
 import subprocess
 import sys
+import threading
 
 from mc import tf
 
@@ -58,6 +59,12 @@ ENVS = {
     "no-home": {"unset": ["HOME", "XDG_CONFIG_HOME", "TMPDIR", "USER"]},
     "tz-far": {"env": {"TZ": "Pacific/Kiritimati"}},
     "smallbuf": {"pre": "import io; io.DEFAULT_BUFFER_SIZE = 512"},
+    # stdout is a regular file and the process may not grow any file beyond
+    # 8 KiB (ulimit -f): the progress display fails part way through a file
+    # (Python ignores SIGXFSZ, the write raises EFBIG)
+    "stdout-fsize": {"stdout": "regular",
+                     "pre": "import resource; resource.setrlimit("
+                            "resource.RLIMIT_FSIZE, (8192, 8192))"},
 }
 
 _WRAP = r'''
@@ -125,6 +132,10 @@ def run(envname, body, cwd=None, timeout=300):
     elif kind == "file":
         opened = open(os.devnull, "w")
         out = opened
+    elif kind == "regular":
+        from mc import world
+        opened = open(os.path.join(world.fresh_dir("envout_"), "stdout"), "w")
+        out = opened
 
     rm_cwd = spec.get("rm_cwd", False)
 
@@ -137,25 +148,43 @@ def run(envname, body, cwd=None, timeout=300):
             os.chdir(d)
             os.rmdir(d)
 
+    # the report pipe is drained while the child runs (a report larger than
+    # the pipe buffer would otherwise block the child for ever)
+    chunks = []
+
+    def drain():
+        while True:
+            chunk = os.read(r, 1 << 16)
+            if not chunk:
+                break
+            chunks.append(chunk)
+
+    th = None
     try:
-        p = subprocess.run([PY] + list(spec.get("flags", ())) + ["-c", code],
-                           env=env, cwd=cwd, stdout=out,
-                           stderr=subprocess.PIPE, pass_fds=(w,),
-                           preexec_fn=pre, timeout=timeout)
-        rc, err = p.returncode, p.stderr.decode("utf-8", "replace")[-600:]
-    except subprocess.TimeoutExpired:
-        rc, err = -999, "timeout"
-    finally:
+        p = subprocess.Popen([PY] + list(spec.get("flags", ())) + ["-c", code],
+                             env=env, cwd=cwd, stdout=out,
+                             stderr=subprocess.PIPE, pass_fds=(w,),
+                             preexec_fn=pre)
         os.close(w)
+        w = None
+        th = threading.Thread(target=drain)
+        th.start()
+        try:
+            _o, e_ = p.communicate(timeout=timeout)
+            rc, err = p.returncode, e_.decode("utf-8", "replace")[-600:]
+        except subprocess.TimeoutExpired:
+            p.kill()
+            p.communicate()
+            rc, err = -999, "timeout"
+    finally:
+        if w is not None:
+            os.close(w)
+        if th is not None:
+            th.join()
         if opened:
             opened.close()
-    data = b""
-    while True:
-        chunk = os.read(r, 1 << 16)
-        if not chunk:
-            break
-        data += chunk
     os.close(r)
+    data = b"".join(chunks)
     rep = {"ok": False, "obs": None, "exc": None, "msg": None}
     reported = False
     if data.strip():
